@@ -191,13 +191,13 @@ func (e *Engine) callFunction(st *State, fn *ssa.Function, args []Value, binding
 		return r, out
 	}
 	// 2. models substitute dependency functions
-	if m, ok := e.W.Models[name]; ok && e.modelInScope(name) {
+	if m := e.lookupModel(name); m != nil {
 		e.trust("model " + shortFn(m) + " stands for " + name)
 		fn = m
 		name = shortFn(fn)
 	} else if o := fn.Origin(); o != nil {
 		key := stripTypeArgs(shortFn(o))
-		if m, ok := e.W.Models[key]; ok && e.modelInScope(key) {
+		if m := e.lookupModel(key); m != nil {
 			e.trust("model " + shortFn(m) + " stands for " + key)
 			fn = m
 			name = shortFn(fn)
@@ -613,7 +613,7 @@ func (e *Engine) invoke(st *State, recv Value, method *types.Func, args []Value,
 	}
 	// unknown dynamic type: interface contract or model required
 	key := ifaceMethodKey(recv.T, method)
-	if m, ok := e.W.Models[key]; ok && e.modelInScope(key) {
+	if m := e.lookupModel(key); m != nil {
 		e.trust("interface model " + shortFn(m) + " stands for " + key)
 		return e.callFunction(st, m, append([]Value{recv}, args...), nil, pos)
 	}
@@ -868,16 +868,25 @@ func sigKey(sig *types.Signature) string {
 	return sb.String()
 }
 
-// modelInScope: a model applies to harnesses of the package that declares it.
-func (e *Engine) modelInScope(target string) bool {
+// lookupModel: the model that stands for target in the current harness - the one declared by the harness's own
+// package, else a global one; none when the harness verifies the real body (real=target).
+func (e *Engine) lookupModel(target string) *ssa.Function {
+	if e.harness.Real[target] {
+		return nil // the harness verifies the real body of a function of /repo that other harnesses replace by a model
+	}
 	p := e.harness.Fn.Package()
 	if p == nil && e.harness.Fn.Origin() != nil {
 		p = e.harness.Fn.Origin().Package()
 	}
-	if e.harness.Real[target] {
-		return false // the harness verifies the real body of a function of /repo that other harnesses replace by a model
+	if p != nil {
+		if m, ok := e.W.Models[target+"@"+p.Pkg.Path()]; ok {
+			return m
+		}
 	}
-	return p == nil || e.W.ModelPkg[target] == "" || e.W.ModelPkg[target] == p.Pkg.Path()
+	if m, ok := e.W.Models[target]; ok {
+		return m
+	}
+	return nil
 }
 
 // stripTypeArgs removes [...] type argument / parameter lists from a function name.
